@@ -108,17 +108,26 @@ def ev(e, env=None):
     raise MachineryError("unknown node %r" % (k,))
 
 
-def build(texts):
+def build(texts, mtexts=None):
     lines = ["!transition_variables", "x, y, " + ", ".join("z%d" % i for i in range(len(texts))), "!log-variables", "y", "!parameters", "p",
              "!transition_equations"]
     lines += ["z%d = %s;" % (i, t) for i, t in enumerate(texts)]
     lines += ["x = 0.5*x{-1} + 1;", "y = 2*y{-1}^0.5;"]
+    if mtexts:
+        # measurement equations: the same trees one period earlier (their deepest lag occurs nowhere in the transition block)
+        lines += ["!measurement_variables", ", ".join("o%d" % i for i in range(len(mtexts))), "!measurement_equations"]
+        lines += ["o%d = %s;" % (i, t) for i, t in enumerate(mtexts)]
     m = ir.Simultaneous.from_string("\n".join(lines) + "\n", context=dict(CONTEXT))
     m.assign(x=X, y=Y, p=P, **{"z%d" % i: 1.0 for i in range(len(texts))})
+    if mtexts:
+        m.assign(**{"o%d" % i: 1.0 for i in range(len(mtexts))})
     s = quiet(m.systemize)
     vec = m._invariant.dynamic_descriptor.system_vectors.transition_variables
     q2n = m.create_qid_to_name()
     cols = {(q2n[t.qid], t.shift): j for j, t in enumerate(vec)}
+    if mtexts:
+        mvec = m._invariant.dynamic_descriptor.system_vectors.measurement_variables
+        m._verif_meas = (np.asarray(s.F, dtype=float), np.asarray(s.G, dtype=float), {(q2n[t.qid], t.shift): j for j, t in enumerate(mvec)})
     return np.asarray(s.A, dtype=float), np.asarray(s.B, dtype=float), cols, m
 
 
@@ -134,10 +143,54 @@ def derivative_cells(A, B, cols, row, name, shift):
     return total, found
 
 
+def check_measurement(chk, m, batch, cols, stats):
+    """F and G of the measurement block  F y + G x + H + J w = 0: row of o_i = <tree one period earlier>."""
+    F, G, mcols = m._verif_meas
+    for row, (sc, out) in enumerate(batch):
+        payload = {"kind": "aldi-measurement", "text": out["mtext"], "tree": _plain(sc["e"])}
+        d = dict(out["d"])
+        try:
+            ev(sc["e"])
+        except Domain:
+            continue
+        own = F[row, mcols[("o%d" % row, 0)]]
+        if abs(abs(own) - 1.0) > 1e-12 or np.count_nonzero(F[row]) != 1:
+            chk.mismatch("aldi:measurement:F", "o = %s: row of F is %s (one entry +-1 for the equation's own variable expected)" % (out["mtext"], F[row].tolist()), payload)
+            continue
+        E = np.zeros(G.shape[1])
+        skip = set()
+        missing = None
+        for (name, shift) in WRTS:
+            try:
+                e = -own * ev(d[(name, shift)]) * (Y if name == "y" else 1.0)
+            except Domain:
+                skip.add((name, shift - 1))
+                continue
+            if (name, shift - 1) in cols:
+                E[cols[(name, shift - 1)]] += e
+            elif abs(e) > 1e-12:
+                missing = (name, shift - 1, e)
+        if missing:
+            chk.mismatch("aldi:measurement:no-column", "o = %s: the transition vector has no entry for %s{%d} although the derivative is %r (the term is dropped from G)" % (
+                out["mtext"], missing[0], missing[1], missing[2]), payload)
+            continue
+        bad = False
+        for (name, sh), j in cols.items():
+            if (name, sh) in skip:
+                continue
+            g = G[row, j]
+            if math.isnan(g) or abs(g - E[j]) > 1e-7 * max(1.0, abs(E[j])):
+                chk.mismatch("aldi:measurement:" + _fns(sc["e"]), "o = %s: G entry for %s%s{%d} at x=2, y=3, p=1/4 is %r, true value %r" % (
+                    out["mtext"], "log " if name == "y" else "", name, sh, g, E[j]), payload)
+                bad = True
+                break
+        stats["measurement"] += not bad
+
+
 def check_batch(chk, batch, stats):
     texts = [o["text"] for _, o in batch]
     try:
-        A, B, cols, m = build(texts)
+        A, B, cols, m = build(texts, [o["mtext"] for _, o in batch])
     except Exception as ex:
         if len(batch) == 1:
             stats["rejected"] += 1            # the function / construct is rejected: allowed
@@ -170,6 +223,13 @@ def check_batch(chk, batch, stats):
                     out["text"], "log " if name == "y" else "", name, shift, g, e), payload)
                 break
         stats["checked"] += 1
+    try:
+        check_measurement(chk, m, batch, cols, stats)
+    except MachineryError:
+        raise
+    except Exception as ex:
+        stats["rejected_other"] += 1
+        stats["rejected_examples"].setdefault("check_measurement:" + type(ex).__name__, repr(ex)[:200])
     for f, args in ((check_stacked, ()), (check_steady, (True,)), (check_steady, (False,))):
         try:
             f(chk, m, batch, stats, *args)
@@ -186,7 +246,7 @@ def check_batch(chk, batch, stats):
 
 def check_batch_other(chk, item, stats, f, args):
     try:
-        _, _, _, m = build([item[1]["text"]])
+        _, _, _, m = build([item[1]["text"]], [item[1]["mtext"]])
     except Exception:
         return
     try:
@@ -375,16 +435,35 @@ def run(chk):
             continue
         items.append((st["sc"], st["out"]))
     os.remove(dump)
-    stats = {"checked": 0, "rejected": 0, "domain": 0, "rejected_examples": {}, "stacked": 0, "steady_flat": 0, "steady_nonflat": 0, "rejected_other": 0}
+    stats = {"checked": 0, "rejected": 0, "domain": 0, "rejected_examples": {}, "stacked": 0, "measurement": 0, "steady_flat": 0, "steady_nonflat": 0, "rejected_other": 0}
     items.sort(key=lambda so: so[1]["text"])
     for i in range(0, len(items), 20):
         check_batch(chk, items[i:i + 20], stats)
     if stats["checked"] < len(items) // 3:
         raise MachineryError("AldiMC: only %d of %d trees could be checked" % (stats["checked"], len(items)))
+    # the stacked-time Jacobian WITH the first-order terminal condition (fords/terminators.py): on the linear library models (leads, second
+    # lead, second lag) one full Newton step from an arbitrary starting point must land on the exact path of the spec
+    from . import C06
+    dump2 = chk.scratch.file("lre.dump")
+    r2 = tlc.must_pass(tlc.run("LinearREMC", "LinearREMC.cfg", chk.scratch, dump=dump2, timeout=1800), "LinearREMC")
+    chk.add_tlc(r2, "LinearREMC")
+    onestep = 0
+    for st in tlaval.parse_dump(dump2, want=lambda b: "fin = TRUE" in b):
+        sc2, out2, path2 = st["sc"], st["out"], dict(st["path"])
+        if sc2["dev"] or not out2["linear"] or out2["fwd"] == 0:
+            continue
+        for cfg in C06.CONFIGS:
+            if cfg[0] == C06.ONE_STEP and (thorough or (onestep + len(sc2["u"])) % 3 == 0):
+                onestep += bool(C06.check_linear(chk, sc2, out2, path2, cfg, 4))
+    os.remove(dump2)
+    if not onestep:
+        raise MachineryError("no one-Newton-step simulation ran")
+    chk.replayed += onestep
+    chk.notes["one_newton_step_simulations_on_linear_models"] = onestep
     chk.sample({"tree": items[len(items) // 2][1]["text"], "spec_derivatives": {"%s{%d}" % k: _plain(v) for k, v in dict(items[len(items) // 2][1]["d"]).items()}})
     chk.replayed += stats["checked"]
     chk.no_claim += stats["rejected"] + stats["domain"]
-    chk.notes.update({"trees_checked_stacked_time_jacobian": stats["stacked"], "trees_checked_flat_steady_jacobian": stats["steady_flat"],
+    chk.notes.update({"trees_checked_in_measurement_block": stats["measurement"], "trees_checked_stacked_time_jacobian": stats["stacked"], "trees_checked_flat_steady_jacobian": stats["steady_flat"],
                       "trees_checked_nonflat_steady_jacobian": stats["steady_nonflat"], "evaluator_raised": stats["rejected_other"]})
     chk.notes.update({"trees_checked": stats["checked"], "trees_rejected_by_irispie": stats["rejected"], "outside_domain_or_at_kink": stats["domain"],
                       "rejected_examples": stats["rejected_examples"], "trees_in_spec_run": total})
